@@ -51,7 +51,9 @@ def check(prog: Program, tier: str) -> Result:
             "template binds, and find templates parse; (R4.g) explicit raise/assert statements known to be reachable "
             "on valid input; (R4.h) the rollback back-ends hand only validated texts to functions that parse their "
             "argument; (R4.i) keyless orderings of tuples that can hold None (alias.asname, ImportFrom.module) - None < str raises. "
-            "Not decided: index arithmetic on runtime text, time bounds (regex backtracking), third-party code."),
+            "(R4.j) operations on OTHER modules on behalf of import tracing (import / find_spec / open / read / parse) are inside handlers for their "
+            "documented exceptions; (R4.k) constant-index access to lists of regex matches only where the pattern always matches or the list was tested. "
+            "Not decided: general index arithmetic on runtime text, time bounds (regex backtracking), third-party code."),
         rule_text="instances = evaluator sites, yields of rule generators, recursive calls, loops, signal call sites, find/replace template pairs, raise/assert statements",
     )
     res.trusted_base = ["CPython ast, builtins exception hierarchy", "sa/pathcond.py", "table of while loops confirmed by reading (WHILE_TABLE)",
@@ -67,7 +69,9 @@ def check(prog: Program, tier: str) -> Result:
     _r4_g(prog, res)
     _r4_h(prog, res)
     _r4_i(prog, res)
-    res.floors.update({"R4.a": 25, "R4.b": 200, "R4.c": 4, "R4.d": 18, "R4.e": 8, "R4.f": 40, "R4.h": 2, "R4.i": 2})
+    _r4_j(prog, res)
+    _r4_k(prog, res)
+    res.floors.update({"R4.a": 25, "R4.b": 200, "R4.c": 4, "R4.d": 18, "R4.e": 8, "R4.f": 40, "R4.h": 2, "R4.i": 2, "R4.j": 5, "R4.k": 1})
     return res
 
 
@@ -495,6 +499,200 @@ def _r4_i(prog: Program, res: Result) -> None:
     res.analysed["orderings_of_tuples_with_optional_components"] = n
 
 
+# ------------------------------------------------------------------------------------------------ R4.j
+FOREIGN_RAISES = {
+    # callee (dotted) -> exceptions it raises for arguments taken from the analysed program (library documentation)
+    "__import__": ("ImportError",),                       # ModuleNotFoundError: module removed / other platform
+    "importlib.import_module": ("ImportError",),
+    "importlib.util.find_spec": ("ImportError", "ValueError"),   # ValueError: `__main__.__spec__ is None`
+}
+
+
+def _r4_j(prog: Program, res: Result) -> None:
+    """The formatter looks at OTHER modules on behalf of the module it formats (import tracing): it imports or locates
+    modules named by the program, reads their files and parses them.  None of that may fail the formatting of a valid
+    module: (1) every call of the table FOREIGN_RAISES is inside a handler for its documented exceptions; (2) opening /
+    reading a file located by the tracer is inside a handler for OSError and UnicodeDecodeError; (3) parsing text read
+    from such a file (core.parse, or a repository function that parses its text parameter) is inside a handler for
+    SyntaxError.  Handlers are looked for in the function itself (enclosing try statements)."""
+    from ..evaluator import caught as _caught
+    locator = prog.funcs.get(("tracing", "_trace_module_source_file"))
+    n = 0
+    parses_param = {}     # repository functions that hand a text parameter to core.parse
+    for f in prog.funcs.values():
+        for c in prog.calls_in(f):
+            r = prog.resolve_call(c.func, f.mod, f)
+            if r and r[0] == "fn" and r[1].key == ("core", "parse") and c.args and isinstance(c.args[0], ast.Name) and c.args[0].id in f.all_params:
+                parses_param[f.key] = c.args[0].id
+    for f in prog.funcs.values():
+        if f.mod.name != "tracing":
+            continue
+        binds = bindings(f)
+        # (1) table calls
+        for c in prog.calls_in(f):
+            d = prog.dotted(c.func) or ""
+            if d in FOREIGN_RAISES:
+                n += 1
+                missing = [e for e in FOREIGN_RAISES[d] if _caught(c, f, e) is None]
+                res.decide(not missing, "R4.j", f.loc(c), f.fq, f"{d}(..): {short(c, 60)}",
+                           f"inside a handler for {list(FOREIGN_RAISES[d])}" if not missing else
+                           f"{d}() raises {missing} for module names found in the analysed program (a module of another platform or Python version, "
+                           "`__main__`): the exception leaves the formatter")
+        if locator is None:
+            continue
+        # (2)/(3) files located by the tracer
+        located: Set[str] = set()
+        for name, defs in binds.items():
+            for _st, v in defs:
+                if v is None:
+                    continue
+                for x in ast.walk(v):
+                    if isinstance(x, ast.Call):
+                        r = prog.resolve_call(x.func, f.mod, f)
+                        if r and r[0] == "fn" and r[1].key == locator.key:
+                            located.add(name)
+        changed = True
+        while changed:       # Path(origin), origin.parent ...
+            changed = False
+            for name, defs in binds.items():
+                if name in located:
+                    continue
+                for _st, v in defs:
+                    if v is not None and any(isinstance(x, ast.Name) and x.id in located for x in ast.walk(v)):
+                        located.add(name)
+                        changed = True
+        if not located:
+            continue
+        foreign_text: Set[str] = set()
+        for w in walk_own(f.node):
+            if isinstance(w, (ast.With, ast.AsyncWith)):
+                for item in w.items:
+                    ce = item.context_expr
+                    if isinstance(ce, ast.Call) and isinstance(ce.func, ast.Attribute) and ce.func.attr == "open" and isinstance(ce.func.value, ast.Name) \
+                            and ce.func.value.id in located:
+                        n += 1
+                        missing = [e for e in ("OSError",) if _caught(ce, f, e) is None]
+                        res.decide(not missing, "R4.j", f.loc(ce), f.fq, f"open of a traced module file: {short(ce, 50)}",
+                                   "inside a handler for OSError" if not missing else "opening the file of another module can fail (permissions, race with deletion): OSError leaves the formatter")
+                        stream = item.optional_vars.id if isinstance(item.optional_vars, ast.Name) else None
+                        for x in ast.walk(w):
+                            if isinstance(x, ast.Call) and isinstance(x.func, ast.Attribute) and x.func.attr == "read" and isinstance(x.func.value, ast.Name) and x.func.value.id == stream:
+                                n += 1
+                                ok = _caught(x, f, "UnicodeDecodeError") is not None
+                                res.decide(ok, "R4.j", f.loc(x), f.fq, f"read of a traced module file: {short(x, 50)}",
+                                           "inside a handler for UnicodeDecodeError" if ok else
+                                           "the file of another module need not be UTF-8: UnicodeDecodeError leaves the formatter although the formatted module is valid")
+                                st = parent(x)
+                                if isinstance(st, ast.Assign) and isinstance(st.targets[0], ast.Name):
+                                    foreign_text.add(st.targets[0].id)
+        for c in prog.calls_in(f):
+            r = prog.resolve_call(c.func, f.mod, f)
+            if not (r and r[0] == "fn"):
+                continue
+            args = [a for a in c.args if isinstance(a, ast.Name) and a.id in foreign_text]
+            if not args:
+                continue
+            parses = r[1].key == ("core", "parse") or r[1].key in parses_param
+            if not parses:
+                continue
+            n += 1
+            ok = _caught(c, f, "SyntaxError") is not None
+            if not ok:
+                # the same text was already parsed successfully earlier on (a guarded parse of it precedes this call)
+                for c2 in prog.calls_in(f):
+                    r2 = prog.resolve_call(c2.func, f.mod, f)
+                    if c2 is not c and r2 and r2[0] == "fn" and (r2[1].key == ("core", "parse") or r2[1].key in parses_param) \
+                            and c2.lineno < c.lineno and any(isinstance(a, ast.Name) and a.id == args[0].id for a in c2.args) \
+                            and _caught(c2, f, "SyntaxError") is not None:
+                        ok = True
+            res.decide(ok, "R4.j", f.loc(c), f.fq, f"parse of a traced module: {short(c, 60)}",
+                       "inside a handler for SyntaxError" if ok else
+                       f"{r[1].fq} parses the text of ANOTHER module, which need not be valid Python (for this interpreter): SyntaxError leaves the formatter "
+                       "although the formatted module is valid")
+    res.analysed["foreign_module_operations"] = n
+
+
+# ------------------------------------------------------------------------------------------------ R4.k
+def _always_matches(pattern: str) -> bool:
+    """True if the regular expression matches at least once in EVERY text: it can match the empty string at position 0
+    (only begin-of-text / begin-of-line anchors and repetitions with minimum 0 in front)."""
+    import re._parser as sre
+    try:
+        tree = sre.parse(pattern)
+    except Exception:
+        return False
+
+    def nullable_at_zero(items) -> bool:
+        for op, av in items:
+            name = str(op)
+            if name == "AT":
+                if str(av) in ("AT_BEGINNING", "AT_BEGINNING_STRING"):
+                    continue
+                return False
+            if name in ("MAX_REPEAT", "MIN_REPEAT", "POSSESSIVE_REPEAT"):
+                if av[0] == 0:
+                    continue
+                return False
+            if name == "SUBPATTERN":
+                if nullable_at_zero(av[3]):
+                    continue
+                return False
+            if name == "BRANCH":
+                if any(nullable_at_zero(alt) for alt in av[1]):
+                    continue
+                return False
+            return False
+        return True
+    return nullable_at_zero(list(tree))
+
+
+def _r4_k(prog: Program, res: Result) -> None:
+    """Indexing the list of matches of a regular expression over run-time text with a constant index raises IndexError
+    when there is no match.  Instance: re.findall(P, T)[k] / list(re.finditer(P, T))[k] (directly or through a
+    single-definition local).  Discharged when P matches in every text (decided on the regex AST) or the list was
+    tested non-empty on every path."""
+    n = 0
+    for fn in prog.funcs.values():
+        binds = bindings(fn)
+        pa = None
+        for sub in walk_own(fn.node):
+            if not (isinstance(sub, ast.Subscript) and not isinstance(sub.slice, ast.Slice) and isinstance(sub.ctx, ast.Load)):
+                continue
+            idx = sub.slice
+            if isinstance(idx, ast.UnaryOp) and isinstance(idx.op, ast.USub):
+                idx = idx.operand
+            if not (isinstance(idx, ast.Constant) and isinstance(idx.value, int)):
+                continue
+            src = sub.value
+            var = None
+            if isinstance(src, ast.Name):
+                defs = [v for (_s, v) in binds.get(src.id, []) if v is not None]
+                if len(defs) != 1:
+                    continue
+                var, src = src.id, defs[0]
+            call = src
+            if isinstance(call, ast.Call) and isinstance(call.func, ast.Name) and call.func.id in ("list", "tuple") and call.args:
+                call = call.args[0]
+            d = prog.dotted(call.func) if isinstance(call, ast.Call) else None
+            if d not in ("re.findall", "re.finditer") or not call.args:
+                continue
+            n += 1
+            pat = call.args[0]
+            text = short(sub, 90)
+            if isinstance(pat, ast.Constant) and isinstance(pat.value, str) and _always_matches(pat.value):
+                res.ok("R4.k", fn.loc(sub), fn.fq, text, f"the pattern {pat.value!r} matches in every text (empty match at position 0)")
+                continue
+            ok = False
+            if var is not None:
+                pa = pa or PathAnalysis(prog, fn)
+                name_node = sub.value
+                ok = pa.reached(sub) and pa.holds_at(sub, lambda w: pa.formula(name_node, w))[0]
+            res.decide(ok, "R4.k", fn.loc(sub), fn.fq, text,
+                       "the list of matches was tested to be non-empty" if ok else
+                       f"the pattern {short(pat, 40)} need not occur in the text: IndexError on valid input (e.g. `else :` written with a blank)")
+    res.analysed["indexed_regex_results"] = n
+
+
 # ------------------------------------------------------------------------------------------------ R4.e / R4.g
 def _explicit_raises(fn: Func) -> List[Tuple[ast.AST, str]]:
     out = []
@@ -751,6 +949,16 @@ class ValidPA(PathAnalysis):
 from ..selftest import Variant  # noqa: E402
 
 VARIANTS = [
+    Variant("find-spec-handles-import-error-only", "FIRE", "tracing",
+            "            except (ImportError, ValueError):  # ValueError: e.g. __main__.__spec__ is None", "            except ImportError:", "R4.j"),
+    Variant("foreign-module-parsed-outside-handler", "FIRE", "tracing",
+            "        try:\n            with origin.open(\"r\", encoding=\"utf-8\") as stream:\n                module_source = stream.read()\n\n            module_root = core.parse(module_source)\n        except (OSError, UnicodeDecodeError, SyntaxError):\n            continue  # The other module cannot be read, or is not valid python\n",
+            "        try:\n            with origin.open(\"r\", encoding=\"utf-8\") as stream:\n                module_source = stream.read()\n        except (OSError, UnicodeDecodeError):\n            continue\n\n        module_root = core.parse(module_source)\n", "R4.j"),
+    Variant("foreign-module-handler-catches-everything", "SILENT", "tracing",
+            "        except (OSError, UnicodeDecodeError, SyntaxError):\n            continue  # The other module cannot be read, or is not valid python\n\n        if any(core.filter_nodes(module_root.body, all_template)):",
+            "        except Exception:\n            continue\n\n        if any(core.filter_nodes(module_root.body, all_template)):"),
+    Variant("else-keyword-list-indexed-unchecked", "FIRE", "fixes",
+            "        if not else_matches:\n            continue\n        last_else = else_matches[-1]", "        last_else = else_matches[-1]", "R4.k"),
     Variant("alias-pairs-sorted-without-key", "FIRE", "fixes",
             "        names = sorted(\n            {(alias.name, alias.asname) for alias in node.names},\n            key=lambda t: (t[0], t[1] is not None, t[1]),\n        )",
             "        names = sorted({(alias.name, alias.asname) for alias in node.names})", "R4.i"),
